@@ -3,8 +3,8 @@
    run against the real mps_output on every check).
    Trusted / modelled, not verified: libm (logarithms enter as bracketed rationals), GMP's mpf_out_str
    (round_sig and gmp_digit_cap are its stated specification, compared with the code by the check). *)
-Require Import ZArith QArith Qabs String List Permutation.
-Require Import MPSV.OutFmt.OutModel MPSV.OutFmt.OutProps.
+Require Import ZArith QArith Qabs String Ascii List Permutation Reals Qreals Lia.
+Require Import MPSV.OutFmt.OutModel MPSV.OutFmt.OutProps MPSV.OutFmt.DpeModel MPSV.OutFmt.DpeProps MPSV.OutFmt.DpeReal.
 Import ListNotations.
 Open Scope Q_scope.
 
@@ -116,9 +116,7 @@ Theorem C17_count_goal_sum : forall zero_roots outside incls,
 Proof. exact count_roots_sum. Qed.
 Print Assumptions C17_count_goal_sum.
 
-(* radius: only the soundness of the checked predicate is proved.  Missing: rdpe_get_dl computes the 15 printed
-   digits through log10/pow (libm) and printf rounds them, so "printed >= stored * (1 - 1e-13)" is established
-   per run by the check, not here. *)
+(* radius: soundness of the predicate the check evaluates on every printed radius (the clause itself: C17_printed_radius_ge below) *)
 Theorem C17_printed_radius_ge_partial : forall p r slack,
   radius_ge_b p r slack = true <-> r * (1 - slack) <= parsed_value p.
 Proof. exact radius_ge_b_spec. Qed.
@@ -171,3 +169,127 @@ Example C17_layout_ex :
   line_fields GnuplotFull (Some AImag) = [FLitZero; FIm true; FRad; FRad] /\
   line_fields GnuplotFull None = [FLitZero; FLitZero; FLitZero; FLitZero].
 Proof. repeat split; reflexivity. Qed.
+
+(* ====================================================================== the DPE printing path (DpeModel.v)
+   rdpe_get_dl / rdpe_out_str / rdpe_out_str_u / rdpe_outln_str / mpf_get_rdpe and the gnuplot and 0.e<l> branches of mps_outfloat,
+   branch by branch; binary64 = rn53 (nearest even, 53 bits, unbounded exponent); libm's log10 and pow (10, .) are the
+   parameters flog10, fpow10 of the model. *)
+
+(* rounding a real result to binary64: relative error 2^-53 *)
+Theorem C17_double_rounding : forall x : Q, Qabs (rn53 x - x) <= pow2 (- 53) * Qabs x.
+Proof. exact rn53_error. Qed.
+Print Assumptions C17_double_rounding.
+
+Example C17_double_rounding_ex :     (* 1/3 -> 0x1.5555555555555p-2; a tie goes to the even neighbour *)
+  rn53 (1 # 3) == 6004799503160661 # 18014398509481984 /\ rn53 ((2 ^ 53 + 1) # 1) == 2 ^ 53 # 1 /\ rn53 ((2 ^ 53 + 3) # 1) == (2 ^ 53 + 4) # 1.
+Proof. repeat split; vm_compute; reflexivity. Qed.
+
+(* "% 16.14f" [xe] "%+04li": the text is a blank (or '-') followed by a rendering that decimal_parse reads back as exactly
+   out_value d l, whose last digit has the unit 10^(l-14), and out_value is d * 10^l with the mantissa rounded to 14 decimals
+   (half a unit); for every mantissa d and exponent l *)
+Theorem C17_rdpe_print_rounding : forall (c : echar) (d : Q) (l : Z),
+  out_text c d l = (if Qle_bool 0 d then String " "%char (render (out_rendering c d l)) else render (out_rendering c d l)) /\
+  (exists p, decimal_parse (render (out_rendering c d l)) = Some p /\
+             parsed_value p == out_value d l /\ p_exp p = (l - 14)%Z /\ (14 < p_ndigits p)%nat) /\
+  Qabs (out_value d l - d * p10 l) <= (1 # 2) * p10 (l - 14).
+Proof. intros c d l. split; [apply out_text_shape | split; [apply out_rendering_parse | apply out_value_rounding]]. Qed.
+Print Assumptions C17_rdpe_print_rounding.
+
+Example C17_rdpe_print_rounding_ex :    (* the carry to 10.00000000000000, a negative mantissa, exponent padding *)
+  out_text Ex (99999999999999996 # 10 ^ 16) 5 = " 10.00000000000000x+005"%string /\
+  out_text Ee (- (5 # 4)) (- 63) = "-1.25000000000000e-063"%string /\
+  out_text Ex (1 # 8) 12345 = " 0.12500000000000x+12345"%string /\ out_text Ee 0 0 = " 0.00000000000000e+000"%string /\
+  zero_text (- 12) = "0.e-12"%string /\ zero_text 1 = "0.e1"%string.
+Proof. repeat split; vm_compute; reflexivity. Qed.
+
+(* THE RADIUS CLAUSE.  For every normalised positive DPE (mantissa in [1/2, 1)), ANY exponent, and every libm whose log10 is
+   within ulog (absolute) on [1/2, 1) and whose pow (10, y) is within upow (relative) for |y| < 1: what rdpe_out_str /
+   rdpe_out_str_u print (out_value of rdpe_get_dl's result, see C17_rdpe_print_rounding) is at least
+     stored * (1 - ln 10 * D - upow - 5e-14),   D = (1 + 2^-53) ulog + (|esp| + 1) * 5/4 * 2^-53
+   (D: the error of the double-precision log10 (m) + esp * LOG10_2; 5e-14: the 14-decimal rounding of a mantissa >= 0.1). *)
+Theorem C17_printed_radius_ge : forall (flog10 fpow10 : Q -> Q) (ulog upow : R),
+  (0 <= ulog)%R -> (0 <= upow <= / 2)%R ->
+  (forall m : Q, 1 # 2 <= m -> m < 1 -> (Rabs (Q2R (flog10 m) - log10R (Q2R m)) <= ulog)%R) ->
+  (forall y : Q, Qabs y < 1 -> (Rabs (Q2R (fpow10 y) - pow10R (Q2R y)) <= upow * pow10R (Q2R y))%R) ->
+  forall (m : Q) (esp : Z), 1 # 2 <= m -> m < 1 ->
+  let '(d, l) := get_dl flog10 fpow10 m esp in
+  (Q2R m * Q2R (pow2 esp) * (1 - ln 10 * Derr ulog esp - upow - 5 / 10 ^ 14) <= Q2R (out_value d l))%R.
+Proof. exact printed_radius_ge. Qed.
+Print Assumptions C17_printed_radius_ge.
+
+(* with a libm good to one ulp (log10 on [1/2,1) within 2^-53 absolute, pow within 2^-52 relative): never below
+   stored * (1 - 1e-13) when |esp| <= 150, and stored * (1 - 4.1e-13) over the whole double range *)
+Theorem C17_printed_radius_ge_1ulp : forall (flog10 fpow10 : Q -> Q),
+  (forall m : Q, 1 # 2 <= m -> m < 1 -> (Rabs (Q2R (flog10 m) - log10R (Q2R m)) <= / 2 ^ 53)%R) ->
+  (forall y : Q, Qabs y < 1 -> (Rabs (Q2R (fpow10 y) - pow10R (Q2R y)) <= / 2 ^ 52 * pow10R (Q2R y))%R) ->
+  forall (m : Q) (esp : Z), 1 # 2 <= m -> m < 1 ->
+  let '(d, l) := get_dl flog10 fpow10 m esp in
+  ((Z.abs esp <= 150)%Z -> (Q2R m * Q2R (pow2 esp) * (1 - 1 / 10 ^ 13) <= Q2R (out_value d l))%R) /\
+  ((Z.abs esp <= 1100)%Z -> (Q2R m * Q2R (pow2 esp) * (1 - 41 / 10 ^ 14) <= Q2R (out_value d l))%R).
+Proof. exact printed_radius_ge_1ulp. Qed.
+Print Assumptions C17_printed_radius_ge_1ulp.
+
+Example C17_printed_radius_ex2 :      (* the hypotheses are met by a concrete DPE; the model prints 0.75 * 2^-143 as 0.67262326287591x-043 *)
+  (1 # 2 <= 3 # 4) /\ (3 # 4 < 1) /\
+  rdpe_out_str (fun _ => - (4501392381066241 # 36028797018963968)) (fun _ => 3029225876048677 # 4503599627370496) (3 # 4) (- 143)
+  = " 0.67262326287591x-043"%string.
+Proof. repeat split; vm_compute; solve [reflexivity | discriminate]. Qed.
+
+(* REFUTED: the 1e-13 print-rounding allowance of the property does not hold over the double range, even with a libm within
+   half an ulp at the two points used.  Witness m = 0x1.ddc72d40a34e9p-1, esp = -1003: printed 0.10886056081147x-301, 1.68e-13
+   short.  The check replays it on the real rdpe_out_str on every run (known finding radius:rdpe_out_str-log10-pow-inexact). *)
+Theorem C17_printed_radius_1e13_refuted :
+  exists (m : Q) (esp : Z) (lgv pwv fr : Q),
+    1 # 2 <= m /\ m < 1 /\
+    (Rabs (Q2R lgv - log10R (Q2R m)) <= / 2 ^ 54)%R /\
+    Qabs fr < 1 /\ (Rabs (Q2R pwv - pow10R (Q2R fr)) <= / 2 ^ 53 * pow10R (Q2R fr))%R /\
+    forall flog10 fpow10 : Q -> Q, flog10 m = lgv -> fpow10 fr = pwv ->
+      let '(d, l) := get_dl flog10 fpow10 m esp in
+      out_value d l < m * pow2 esp * (1 - (1 # 10 ^ 13)).
+Proof. exact printed_radius_1e13_refuted. Qed.
+Print Assumptions C17_printed_radius_1e13_refuted.
+
+(* REFUTED: the one-unit clause for the gnuplot formats.  A stored component 623399332000000040000000 goes through
+   mpf_get_rdpe and rdpe_out_str_u and is printed " 6.23399332000003e+023", more than two units of its last digit away
+   (libm within half an ulp at the two points used).  Replayed by the check (known finding close:gnuplot:rdpe_out_str_u-last-digits-inexact). *)
+Theorem C17_gnuplot_unit_refuted :
+  exists (x m : Q) (esp : Z) (lgv pwv fr : Q),
+    mpf_get_rdpe x = (m, esp) /\
+    (Rabs (Q2R lgv - log10R (Q2R m)) <= / 2 ^ 54)%R /\
+    Qabs fr < 1 /\ (Rabs (Q2R pwv - pow10R (Q2R fr)) <= / 2 ^ 53 * pow10R (Q2R fr))%R /\
+    forall flog10 fpow10 : Q -> Q, flog10 m = lgv -> fpow10 fr = pwv ->
+      gnuplot_component flog10 fpow10 x = " 6.23399332000003e+023"%string /\
+      let '(d, l) := get_dl flog10 fpow10 m esp in
+      2 * p10 (l - 14) < Qabs (out_value d l - x).
+Proof. exact gnuplot_unit_refuted. Qed.
+Print Assumptions C17_gnuplot_unit_refuted.
+
+(* the "0.e<l>" branch as now coded (rdpe_get_dl of the magnitude; l++ when d >= 1): the printed power of ten covers the
+   stored magnitude of the DPE up to the error of the computed logarithm and of pow, for every libm as above *)
+Theorem C17_zero_branch_code_covers : forall (flog10 fpow10 : Q -> Q) (ulog upow : R),
+  (0 <= ulog)%R -> (0 <= upow <= / 2)%R ->
+  (forall m : Q, 1 # 2 <= m -> m < 1 -> (Rabs (Q2R (flog10 m) - log10R (Q2R m)) <= ulog)%R) ->
+  (forall y : Q, Qabs y < 1 -> (Rabs (Q2R (fpow10 y) - pow10R (Q2R y)) <= upow * pow10R (Q2R y))%R) ->
+  forall (m : Q) (esp : Z), 1 # 2 <= m -> m < 1 ->
+  let '(d, l) := get_dl flog10 fpow10 m esp in
+  let l' := if Qle_bool 1 d then (l + 1)%Z else l in
+  (Q2R m * Q2R (pow2 esp) <= pow10R (IZR l') * pow10R (Derr ulog esp) * (1 + 2 * upow))%R.
+Proof. exact zero_branch_code_covers. Qed.
+Print Assumptions C17_zero_branch_code_covers.
+
+Example C17_zero_branch_code_ex :    (* 5 = 0.625 * 2^3 -> "0.e1" (d = 5 >= 1: l + 1), with glibc's log10 (0.625) and pow (10, .) = 5 *)
+  zero_text (zero_exp_code (fun _ => - (919274677828095 # 4503599627370496)) (fun _ => 5 # 1) (5 # 1)) = "0.e1"%string.
+Proof. vm_compute. reflexivity. Qed.
+
+(* digits: a radius / gnuplot component shows at most 16 significant digits (|d| <= 10 whenever pow is within upow <= 1e-16..);
+   per format: requested + 10 (compact, bare, verbose), 16 (gnuplot formats), GMP's cap of the stored precision (full) *)
+Theorem C17_digits_every_format : forall (f : fmt) (lg : Q) (precf D : Z), (0 <= D <= 1000000000)%Z ->
+  (max_digits f lg precf (prec_of_digits D) <=
+     match f with Compact | Bare | Verbose => D + 10 | Gnuplot | GnuplotFull => 16 | Full => gmp_digit_cap precf end)%Z /\
+  forall (c : echar) (d : Q) (l : Z), Qabs d <= 10 ->
+    exists p, decimal_parse (render (out_rendering c d l)) = Some p /\ (sig_digits p <= 16)%nat.
+Proof.
+  intros f lg precf D HD. split; [| apply out_rendering_digits].
+  destruct f; simpl max_digits; try lia; apply C17_requested_digits_margin; exact HD.
+Qed.
+Print Assumptions C17_digits_every_format.
